@@ -46,6 +46,33 @@ template <typename T> struct const_map
 
 #include "run.hpp"
 
+// synthetic engines with range 2^L, to evaluate hep::random_number_usage for chosen (digits, log2 R)
+template <int L> struct synth_engine
+{
+    using result_type = std::uint64_t;
+    static constexpr result_type min() { return 0; }
+    static constexpr result_type max() { return L >= 64 ? ~result_type(0) : ((result_type(1) << (L & 63)) - 1); }
+    result_type operator()() { return 0; }
+};
+template <typename T, int L> std::size_t usage_l() { return hep::random_number_usage<T, synth_engine<L>>(); }
+template <typename T> std::size_t usage_bits(std::uint64_t l)
+{
+    switch (l)
+    {
+    case 1: return usage_l<T, 1>(); case 2: return usage_l<T, 2>(); case 8: return usage_l<T, 8>(); case 16: return usage_l<T, 16>();
+    case 24: return usage_l<T, 24>(); case 30: return usage_l<T, 30>(); case 31: return usage_l<T, 31>(); case 32: return usage_l<T, 32>();
+    case 48: return usage_l<T, 48>(); case 63: return usage_l<T, 63>(); case 64: return usage_l<T, 64>();
+    default: throw std::runtime_error("usage: unsupported log2 R");
+    }
+}
+template <typename T> std::size_t usage_for(std::uint64_t b, std::uint64_t l)
+{
+    if (b == 24) return usage_bits<float>(l);
+    if (b == 53) return usage_bits<double>(l);
+    if (b == 64) return usage_bits<long double>(l);
+    throw std::runtime_error("usage: unsupported digits");
+}
+
 template <typename T> Sx pure_case(std::string const& cmd, Sx const& a)
 {
     if (cmd == "split")
@@ -121,6 +148,17 @@ template <typename T> Sx pure_case(std::string const& cmd, Sx const& a)
         hep::distribution_result<T> d(par, std::vector<hep::mc_result<T>>());
         return Sx::list({efloats(hep::mid_points_x(d)), efloats(hep::mid_points_y(d))});
     }
+    if (cmd == "subcalls")
+    {
+        // per-rank share as implied by the positions of consecutive ranks (the drivers' own expression is
+        // translated; the MPI runs observe it directly)
+        std::size_t calls = a.at(0).N_(), rank = a.at(1).N_(), world = a.at(2).N_();
+        std::size_t const before = hep::discard_before(calls, rank, world);
+        std::size_t const next = rank + 1 < world ? hep::discard_before(calls, rank + 1, world) : calls;
+        return Sx::list({Sx::num(next - before), Sx::num(next - before), Sx::num(next - before)});
+    }
+    if (cmd == "usage")
+        return Sx::list({Sx::num(usage_for<T>(a.at(0).N_(), a.at(1).N_()))});
     return run_case<T>(cmd, a);
 }
 
